@@ -333,6 +333,88 @@ Proof.
   simpl. rewrite Ht. eexists; split; [reflexivity|]. simpl. split; [assumption|reflexivity].
 Qed.
 
+(* ---------- re-apply requests ---------- *)
+(* submissions and re-apply requests are always received: only a timer expiry can be "not enabled" *)
+Lemma submit_total s c : exists s', step s (Submit c) = Some s'.
+Proof. simpl. destruct (ocfg_eqb (config s) (Some c)); eauto. Qed.
+
+Lemma reapply_total s : exists s', step s ReapplyOld = Some s'.
+Proof. simpl. destruct (config s); eauto. Qed.
+
+(* a re-apply request arms the timer (unless nothing was ever submitted) and changes nothing else *)
+Lemma reapply_arms s c : config s = Some c ->
+  exists s', step s ReapplyOld = Some s' /\ timer s' = true /\ config s' = Some c /\ applied s' = applied s /\ log s' = log s.
+Proof. intros H. simpl. rewrite H. eexists. split; [reflexivity|]. simpl. auto. Qed.
+
+Lemma reapply_ignored_when_empty s : config s = None -> step s ReapplyOld = Some s.
+Proof. intros H. simpl. rewrite H. reflexivity. Qed.
+
+(* with no newer submission the re-apply leads to exactly one more reload call, with the same content ... *)
+Lemma reapply_reloads_same s c : reachable s -> timer s = false -> config s = Some c ->
+  exists s', run s [ReapplyOld; Fire true] = Some s' /\ log s' = (Some c, true) :: log s /\
+             applied s' = Some c /\ timer s' = false /\ (forall b, step s' (Fire b) = None).
+Proof.
+  intros Hr Ht Hc. simpl. rewrite Hc. simpl. eexists. split; [reflexivity|]. simpl. repeat split.
+Qed.
+
+(* ... and with a newer submission in the same window, of the newer content, once *)
+Lemma reapply_reloads_newer s c c' : reachable s -> timer s = false -> config s = Some c ->
+  exists s', run s [ReapplyOld; Submit c'; Fire true] = Some s' /\ log s' = (Some c', true) :: log s /\
+             applied s' = Some c' /\ timer s' = false.
+Proof.
+  intros Hr Ht Hc. simpl. rewrite Hc. simpl. destruct (N.eqb c c') eqn:E; simpl.
+  - apply N.eqb_eq in E. subst. eexists. split; [reflexivity|]. simpl. auto.
+  - eexists. split; [reflexivity|]. simpl. auto.
+Qed.
+
+(* a failing re-applied reload is retried like any other *)
+Lemma reapply_failure_retried s c : timer s = false -> config s = Some c ->
+  exists s', run s [ReapplyOld; Fire false] = Some s' /\ timer s' = true /\ config s' = Some c.
+Proof. intros Ht Hc. simpl. rewrite Hc. simpl. eexists. split; [reflexivity|]. simpl. auto. Qed.
+
+(* the window of C19_coalesce exists: any sequence of submissions / re-apply requests is a run; afterwards the
+   reload call is enabled as soon as the timer is armed, and the timer IS armed when it was armed before, when
+   the stored configuration changed, or when the window contains a re-apply request (something having been submitted) *)
+Lemma window_run s subs : no_fire subs = true ->
+  exists s1, run s subs = Some s1 /\ (timer s1 = true -> exists s', run s (subs ++ [Fire true]) = Some s').
+Proof.
+  intros Hn. destruct (nofire_enabled s subs Hn) as (s1 & R). exists s1. split; [exact R|].
+  intros T. rewrite run_snoc, R. simpl. rewrite T. eauto.
+Qed.
+
+Lemma nofire_keeps_some s l s1 : no_fire l = true -> run s l = Some s1 -> config s <> None -> config s1 <> None.
+Proof.
+  revert s; induction l as [|e l IH]; intros s Hn H Hc; simpl in *; [inversion H; subst; assumption|].
+  apply andb_true_iff in Hn as [He Hn]. destruct (step s e) as [s0|] eqn:E; [|discriminate]. apply (IH s0 Hn H).
+  destruct e as [c| |ok]; simpl in *; try discriminate.
+  - destruct (ocfg_eqb (config s) (Some c)); inversion E; subst; simpl; [assumption|discriminate].
+  - destruct (config s) eqn:Q; inversion E; subst; simpl; congruence.
+Qed.
+
+Lemma window_armed_by_change s subs s1 : no_fire subs = true -> run s subs = Some s1 -> config s1 <> config s -> timer s1 = true.
+Proof.
+  revert s; induction subs as [|e l IH]; intros s Hn H Hc; simpl in *; [inversion H; subst; congruence|].
+  apply andb_true_iff in Hn as [He Hn]. destruct (step s e) as [s0|] eqn:E; [|discriminate].
+  destruct e as [c| |ok]; simpl in *; try discriminate.
+  - destruct (ocfg_eqb (config s) (Some c)) eqn:Q; inversion E; subst; clear E.
+    + apply (IH s0 Hn H Hc).
+    + destruct (nofire_run _ _ _ Hn H) as (_ & _ & K). apply K. reflexivity.
+  - destruct (config s) eqn:Q; inversion E; subst; clear E.
+    + destruct (nofire_run _ _ _ Hn H) as (_ & _ & K). apply K. reflexivity.
+    + apply (IH s0 Hn H). rewrite Q. exact Hc.
+Qed.
+
+Lemma window_armed_by_reapply s subs s1 : no_fire subs = true -> run s subs = Some s1 ->
+  In ReapplyOld subs -> config s <> None -> timer s1 = true.
+Proof.
+  revert s; induction subs as [|e l IH]; intros s Hn H Hin Hc; simpl in *; [contradiction|].
+  apply andb_true_iff in Hn as [He Hn]. destruct (step s e) as [s0|] eqn:E; [|discriminate].
+  destruct Hin as [->|Hin].
+  - simpl in E. destruct (config s) eqn:Q; [|congruence]. inversion E; subst; clear E.
+    destruct (nofire_run _ _ _ Hn H) as (_ & _ & K). apply K. reflexivity.
+  - apply (IH s0 Hn H Hin). apply (nofire_keeps_some s [e] s0); simpl; [rewrite He; reflexivity|rewrite E; reflexivity|assumption].
+Qed.
+
 (* ---------- loop location: submitters are never blocked indefinitely ---------- *)
 Definition freachable (s : fst_) : Prop := exists l, frun finit l = Some s.
 
